@@ -51,7 +51,7 @@ def kind(x):
                     return k
             return "bytes" if name != "slice" else "any"
         if name in ("mod", "floordiv", "shl", "shr", "and", "or", "xor", "inv", "pow", "mul", "len", "get_as_int",
-                    "int", "abs", "ord", "sum", "count", "index", "bit", "select_int"):
+                    "int", "abs", "ord", "sum", "count", "index", "bit", "select_int", "rfind", "find", "from_bytes"):
             return "int"
         if name in ("cat", "pack", "rep", "joinmap", "bytesof", "encode", "ljustb", "rjustb", "slice_b", "sized", "byte"):
             return "bytes"
@@ -167,6 +167,9 @@ def mul(a, b):
     for x, y in ((a, b), (b, a)):
         if is_sym(y) and y[0] == "op" and y[1] == "pow" and y[2] == 2:
             return shl(x, y[3])
+    for x, y in ((a, b), (b, a)):
+        if is_sym(y) and y[0] == "op" and y[1] == "shl" and not is_sym(y[2]) and y[2] == 1:
+            return shl(x, y[3])
     # polynomial normal form: distribute, monomials are sorted products of atoms
     ta, ca = _lin_parts(a)
     tb, cb = _lin_parts(b)
@@ -237,6 +240,10 @@ def band(a, b):
             if not (x[0] == "op" and x[1] == "bit"):
                 return op("bit", x, 0)
             return x
+    # x & (2**k - 1)  ==  x mod 2**k   (for every Python int, negative ones included)
+    for x, y in ((a, b), (b, a)):
+        if is_sym(x) and not is_sym(y) and isinstance(y, int) and y > 1 and (y & (y + 1)) == 0:
+            return mod(x, y + 1)
     return _comm("and", a, b, lambda x, y: x & y)
 
 
@@ -326,6 +333,8 @@ def pack(fmt, *args):
                 fields.append(None)
             else:
                 fields += [ch] * (int(cnt) if cnt else 1)
+        if len([f for f in fields if f is not None]) == len(args) and len(fields) == 1 and fields[0] is not None:
+            return op("pack", fmt[0] + fields[0], *args)      # canonical spelling: '<1B' == '<B'
         if len([f for f in fields if f is not None]) == len(args) and len(fields) > 1:
             out = b""
             it = iter(args)
